@@ -169,10 +169,44 @@ with NT():
 for rec in (dict(x=a), s0, dict(x=b)):
     h1.fill(rec); h2.fill(rec)
 if h1.sum != h2.sum or h1.entries != h2.entries: return "aggregator-over-mixed-records-differs"
+# a second, fresh wrapper of the same expression text must not inherit anything from the first one
+u2 = U.UserFcn("x + 1")
+if u2(s0) != s0 + 1: return "fresh-wrapper-of-same-expression-sees-earlier-records"
+if u2(dict(x=b)) != b + 1: return "fresh-wrapper-wrong-on-dict"
+r = raises(U.UserFcn("x + y"), dict(x=a))
+if r is None: return "fresh-wrapper-silently-reuses-a-field-of-an-earlier-record"
 """
     return Harness("C17/expr/mixed-shapes", [("a", "float"), ("b", "float"), ("k", "int")], "0 <= k <= 2", body, timeout=timeout,
                    setup=C17_SETUP, tree="UserFcn('x + 1'), UserFcn('x + y')",
                    bounds="dict / bare scalar (concrete by selector) / attribute records interleaved through one wrapper; a, b symbolic reals")
+
+
+def cached_arrays(timeout=40):
+    """cached() on numpy batches (real numpy; concrete arrays picked by selectors, run untraced): equal-looking but different
+    batches (within 1e-9, overlapping views of one buffer, broadcast-equal constants, other length) must be recomputed"""
+    body = """
+import numpy as np
+k1 = sel(k1, 0, 1, 2, 3, 4, 5); k2 = sel(k2, 0, 1, 2, 3, 4, 5)
+with NT():
+    buf = np.array([1.0, 2.0, 3.0, 4.0, 5.0, 6.0])
+    def batch(k):
+        return [buf[0:3], buf[0:3] + 1e-9, buf[1:4], buf[0::2], np.array([3.0, 3.0, 3.0]), np.array([3.0])][k]
+    f = lambda a: a * 2.0 + 1.0
+    g = U.cached(f)
+    res = ""
+    for kk in (k1, k2, k1):
+        a = batch(kk)
+        got, want = g(a), f(a)
+        if np.shape(got) != np.shape(want) or not np.array_equal(got, want): res = res or "cached-batch-result-stale-or-wrong:%d" % kk
+    h1 = H.Sum(U.cached(lambda a: a)); h2 = H.Sum(lambda a: a)
+    for kk in (k1, k2):
+        h1.fill.numpy(batch(kk)); h2.fill.numpy(batch(kk))
+    if h1.sum != h2.sum or h1.entries != h2.entries: res = res or "aggregator-with-cached-quantity-differs-over-batches"
+if res: return res
+"""
+    return Harness("C17/cached/arrays", [("k1", "int"), ("k2", "int")], "0 <= k1 <= 5 and 0 <= k2 <= 5", body, timeout=timeout,
+                   setup=C17_SETUP, tree="cached(lambda a: a*2+1) on numpy batches",
+                   bounds="call sequence (k1, k2, k1) over 6 concrete numpy batches: slice, slice+1e-9, overlapping slice, strided view, constant, shorter constant")
 
 
 def scalar_expr(timeout=40):
@@ -218,4 +252,5 @@ def harnesses(tier):
         out.append(string_expr(i, e, f, timeout=60 if tier == "quick" else 180))
     out.append(scalar_expr())
     out.append(mixed_shapes())
+    out.append(cached_arrays())
     return out
